@@ -145,7 +145,8 @@ def theorem_at(path, line):
     return None
 
 
-FORBIDDEN = re.compile(r"\b(sorry|admit|native_decide|bv_decide|implemented_by|unsafe|maxHeartbeats 0)\b|^\s*axiom\s", re.M)
+FORBIDDEN = re.compile(r"\b(sorry|sorryAx|admit|native_decide|bv_decide|implemented_by|extern|csimp|unsafe|ofReduceBool|reduceBool|"
+                       r"maxHeartbeats 0)\b|^\s*axiom\s", re.M)
 
 
 def strip_comments(txt):
@@ -158,7 +159,8 @@ def grep_forbidden(files):
     for f in files:
         try:
             txt = strip_comments(open(os.path.join(LEAN, f)).read())
-        except OSError:
+        except (OSError, UnicodeDecodeError) as e:
+            hits.append((f, "unreadable: %s" % type(e).__name__))   # a file that cannot be inspected is not clean
             continue
         for m in FORBIDDEN.finditer(txt):
             hits.append((f, m.group(0).strip()))
